@@ -152,8 +152,35 @@ theorem C20_kept_iff (defs : List (Def K)) (sel : String → Bool) (d : Def K) :
   cases hs : d.spec with
   | other => simp
   | seq qvars gates =>
-    simp only [Bool.or_eq_true, Bool.not_eq_eq_eq_not, Bool.not_true, referencedByUnselected,
-      List.any_eq_true, Bool.and_eq_true, reach_iff, reduceCtorEq, false_or]
+    simp only [Bool.or_eq_true, Bool.not_eq_eq_eq_not, Bool.not_true, List.contains_eq_mem,
+      decide_eq_true_eq, mem_reachFrom_iff, List.mem_filter, reduceCtorEq, false_or]
+    constructor
+    · rintro (h | ⟨u, ⟨hu, hsu⟩, hr⟩)
+      · exact .inl h
+      · exact .inr ⟨u, hu, hsu, hr⟩
+    · rintro (h | ⟨u, hu, hsu, hr⟩)
+      · exact .inl h
+      · exact .inr ⟨u, ⟨hu, hsu⟩, hr⟩
+
+/-- The literal per-pair formulation (one `has_path_connecting` query per pair, as the Rust loops run it)
+retains the same definitions as the single closure the drivers compute. -/
+theorem keptDefs_eq_pairwise (defs : List (Def K)) (sel : String → Bool) :
+    keptDefs defs sel = keptDefsPairwise defs sel := by
+  unfold keptDefs keptDefsPairwise
+  apply List.filter_congr
+  intro d _
+  cases hs : d.spec with
+  | other => rfl
+  | seq qvars gates =>
+    simp only
+    congr 1
+    rw [Bool.eq_iff_iff]
+    simp only [List.contains_eq_mem, decide_eq_true_eq, mem_reachFrom_iff, List.mem_filter,
+      Bool.not_eq_eq_eq_not, Bool.not_true, referencedByUnselected, List.any_eq_true, Bool.and_eq_true,
+      reach_iff]
+    constructor
+    · rintro ⟨u, ⟨hu, hsu⟩, hr⟩; exact ⟨u, hu, hsu, hr⟩
+    · rintro ⟨u, hu, hsu, hr⟩; exact ⟨u, ⟨hu, hsu⟩, hr⟩
 
 /-- The retained definitions keep their original relative order. -/
 theorem C20_kept_order (defs : List (Def K)) (sel : String → Bool) : (keptDefs defs sel).Sublist defs :=
